@@ -87,8 +87,14 @@ def make_case(index, rng, tier):
             boot_fail.update({"age": 1, "all": True, "delay": round(rng.uniform(0.1, 0.8), 2), "stagger": rng.choice([0.0, 0.15, 0.4])})
     bug = {"pyticks": rng.randrange(3) == 0, "fork_child_first": rng.randrange(2) == 0, "spurious_select": rng.randrange(3) == 0, "random_spawn_delay": rng.randrange(2) == 0,
            "pid_wrap": rng.choice([0, 0, 0, 12, 16, 24])}
+    # a transient resource shortage: the n-th fork() (never the first) or the creation of a worker's heartbeat file fails once
+    sysfault = None
+    if boot_fail is None and rng.randrange(8) == 0:
+        sysfault = {"op": rng.choice(["fork", "fork", "mkstemp"]), "nth": rng.randrange(2, 7), "errno": rng.choice(["EAGAIN", "ENOMEM"])}
+        if sysfault["op"] == "mkstemp":
+            sysfault["errno"] = rng.choice(["ENOSPC", "EMFILE"])
     return {"cfg": cfg, "events": sorted(events, key=lambda e: e["t"]), "ticks": ticks, "scripts": scripts,
-            "boot_fail": boot_fail, "buggify": bug, "preempt": rng.randrange(0, 4)}
+            "boot_fail": boot_fail, "buggify": bug, "preempt": rng.randrange(0, 4), "sysfault": sysfault}
 
 
 def run(case, choices):
@@ -113,6 +119,28 @@ def run(case, choices):
             for a_ in range(1, 16):
                 scripts[a_] = {"boot": "exit%d" % bf["code"], "boot_delay": round(bf["delay"] + bf["stagger"] * (a_ - 1), 2)}
     w = master.World(sim, cfg, scripts=scripts)
+    sf = case.get("sysfault")
+    if sf:
+        import errno as _errno
+        cnt = {"n": 0}
+
+        def sys_fail(p_, op):
+            if op == sf["op"] and p_.name.startswith("master"):
+                cnt["n"] += 1
+                if cnt["n"] == sf["nth"]:
+                    sim.probe("transient_%s_failure" % sf["op"])
+                    return getattr(_errno, sf["errno"])
+            return None
+        sim.sys_fail = sys_fail
+        if sf["op"] == "mkstemp":
+            def fs_fail(op, path):
+                if op == "mkstemp" and str(path).startswith("/tmp"):
+                    cnt["n"] += 1
+                    if cnt["n"] == sf["nth"]:
+                        sim.probe("transient_mkstemp_failure")
+                        return getattr(_errno, sf["errno"])
+                return None
+            sim.fs_fail = fs_fail
     for i in range(case["preempt"]):
         sim.preempt_at.add(1 + choices.choose(3000, "preempt"))
     m = w.start_master()
@@ -219,8 +247,8 @@ def run(case, choices):
     try:
         why = sim.run(until=until)
         a = arb()
-        ctx = lambda: "cfg=%r events=%r ticks=%r scripts=%r boot_fail=%r buggify=%r t=%.2f" % (
-            case["cfg"], case["events"], case["ticks"], {k: v for k, v in sorted(case["scripts"].items())[:8]}, bf, case["buggify"], sim.now)
+        ctx = lambda: "cfg=%r events=%r ticks=%r scripts=%r boot_fail=%r sysfault=%r buggify=%r t=%.2f" % (
+            case["cfg"], case["events"], case["ticks"], {k: v for k, v in sorted(case["scripts"].items())[:8]}, bf, case.get("sysfault"), case["buggify"], sim.now)
         if sim.crash:
             raise master.HarnessError(sim.crash)
         if why in ("step-cap", "time-cap"):
